@@ -214,6 +214,11 @@ func qualifyForSepPackage(c *Config, structPkg string) *Config {
 	}
 	q(n.TimeType)
 	q(n.DurationType)
+	for k, st := range n.SchemaTypes {
+		st := st
+		q(&st)
+		n.SchemaTypes[k] = st
+	}
 	// unqualified validator / plan modifier constructors live in the struct package
 	qs := func(l []string) []string {
 		out := make([]string, len(l))
